@@ -57,6 +57,7 @@ func devMain(args []string) {
 		os.MkdirAll(work, 0755)
 	}
 	var obls []*Obligation
+	var allCovers []*Obligation
 	for _, name := range v.contractedFuncs() {
 		if *only != "" {
 			hit := false
@@ -82,8 +83,26 @@ func devMain(args []string) {
 			fmt.Println("  note: uncontracted callee", u, "in", name)
 		}
 		obls = append(obls, e.obls...)
+		allCovers = append(allCovers, e.covers...)
+	}
+	var covers []*Obligation
+	for _, name := range v.contractedFuncs() {
+		_ = name
 	}
 	var wg sync.WaitGroup
+	coverRes := map[string]string{}
+	var cmu sync.Mutex
+	for _, o := range allCovers {
+		wg.Add(1)
+		go func(o *Obligation) {
+			defer wg.Done()
+			st := runCover(o, work, 0, 2)
+			cmu.Lock()
+			coverRes[o.Name] = st
+			cmu.Unlock()
+		}(o)
+	}
+	_ = covers
 	for _, o := range obls {
 		wg.Add(1)
 		go func(o *Obligation) {
@@ -113,6 +132,15 @@ func devMain(args []string) {
 			}
 		}
 	}
+	nc := map[string]int{}
+	for _, o := range allCovers {
+		st := coverRes[o.Name]
+		nc[st]++
+		if st != "sat" && st != "sat-relaxed" {
+			fmt.Printf("COVER %-8s %s  %s\n", st, o.Name, o.Pos)
+		}
+	}
+	fmt.Printf("covers: %v\n", nc)
 	fmt.Printf("%d obligations, %d not discharged, %.1fs\n", len(obls), bad, time.Since(t0).Seconds())
 }
 
